@@ -422,7 +422,10 @@ GRID_SECTIONS = {"grid", "size", "nmax", "status", "area", "area_views_agree", "
 GRID_TB = ["tables of the grid model are regenerated from raster_grid.hpp / profile_grid.hpp / base.hpp by translate.py on every run",
            "xtensor view assignment semantics of set_nodes_status modelled by hand (tied by exhaustive border-mix correspondence)"]
 
-register("C07", lean_modules=['FsModel.U64'], theorems=['Fs.nbIndex_toNat'], gen=lambda r, t: gen_grids(r, t) + (gen_grids_exhaustive(r, t) if t == "thorough" else []), oracles=[oracle.c07],
+register("C07", lean_modules=["FsModel.U64", "FsProofs.Properties.C07"],
+         theorems=["Fs.C07.rasterNbIdx_eq_geom", "Fs.C07.codeOffsets_eq_geom", "Fs.C07.count_eq_length", "Fs.C07.count_table_spec",
+                   "Fs.C07.codedTuples_spec", "Fs.C07.offs_valid", "Fs.C07.axis", "Fs.C07.geomOffsets_in_grid",
+                   "Fs.C07.profileNbIdx_eq_geom", "Fs.C07.profileCount_spec", "Fs.nbIndex_toNat"], gen=lambda r, t: gen_grids(r, t) + (gen_grids_exhaustive(r, t) if t == "thorough" else []), oracles=[oracle.c07],
          sections=GRID_SECTIONS, nontrivial=grid_nontrivial, tags=tags_grid,
          rule="random rasters/profiles (3 connectivities, border mixes incl. looped, size-2 looped axes, anisotropic spacing, cache on/off), every accessor for every node in shuffled order with repeats; thorough adds all 4^4 border mixes x shapes; non-trivial = grid accepted and queried",
          trusted_base=GRID_TB)
@@ -592,8 +595,8 @@ _lvl("C06", "proof",
      "Theorems on the executed components: donor table = inverse of the receiver function, without duplicates (mem_donors, donors_nodup); bottom-up order places every node after its receiver (dfs_recv_before) and is a permutation of all nodes on a forest (dfs_perm); every node of the next breadth-first level has all receivers in earlier levels (next_level_receivers). Top-down (Kahn) order and multi-router donors are tied by correspondence + oracle.",
      "Lean 4 stack/queue invariant proofs + bit-exact correspondence + table-consistency oracle")
 _lvl("C07", "proof",
-     "Theorem on the executed index arithmetic: the size_t wrap-around computation of a neighbour index equals the integer result whenever that lies in range (nbIndex_toNat). The count/offset tables are regenerated from raster_grid.hpp on every run and drive the executed model, whose every accessor is compared with the real grid for every node; the geometric oracle checks symmetry, distances, statuses. (The table-vs-geometry theorem currently exists for queen connectivity on a copy of the tables; see DESIGN.md.)",
-     "translator-regenerated tables + Lean index-arithmetic theorem + exhaustive-accessor correspondence + geometric oracle")
+     "Theorems about the executed grid model with the tables regenerated from raster_grid.hpp / profile_grid.hpp on every run: rasterNbIdx_eq_geom (for EVERY raster with >= 2 nodes per axis and < 2^63 nodes, every connectivity, every loop flags and every node, the neighbour indices computed through node code, count table, offset/argument tables and size_t wrap-around arithmetic are exactly the row-major indices of the geometric one-step neighbours - stay inside, wrap only across looped borders, drop otherwise - in the same order), codeOffsets_eq_geom (offsets), count_eq_length + count_table_spec (108-case decide over the regenerated count tables: count accessor = list length), codedTuples_spec / offs_valid (decide over the regenerated argument tuples and offset lists), profileNbIdx_eq_geom (profile grid). Distances, statuses of neighbours, the struct/(row,col) views, symmetry and cache transparency are model definitions or oracle checks tied by the every-accessor correspondence (cache on/off, shuffled and repeated queries, out-parameter overloads with reused buffers).",
+     "Lean 4 proof over all shapes (axis lemma + omega; decide only over regenerated tables) + translator + every-accessor correspondence + geometric oracle")
 _lvl("C08", "proof",
      "Theorem: every status read of the filtered iterator's skip loop is at an index < size when the bounds test precedes the filter (conjunct order regenerated from iterators.hpp each run). Everything else is the sanitizer build: every scenario of the other properties runs under ASan+UBSan+_GLIBCXX_ASSERTIONS; each distinct report is a violation. Partial by nature: Lean proves index logic of the model, not absence of UB in C++.",
      "Lean 4 access-log theorem + translator (conjunct order) + ASan/UBSan execution of all scenario families")
